@@ -1,6 +1,7 @@
 #!/bin/bash
 # fuzz.sh <property> <seconds>   — coverage-guided part of a thorough tier (called by /verif/check <ID> thorough)
 #   C01 -> target c01_read   (open + navigate a whole file; first byte = parse preset)
+#   C08 -> target c08_filters (PdfStream::decode_with_limit; eight header bytes = filters, predictor parameters, limit)
 #   C21 -> target c21_content (ContentParser::parse / parse_strict on raw bytes)
 #   C26 -> target c26_cmap    (CMap::parse + lookups on raw bytes)
 # Builds the cargo-fuzz target against /repo's working tree (libFuzzer, overflow checks and debug assertions on),
@@ -12,6 +13,7 @@ set -u
 ID="${1:?property}"; SECS="${2:-600}"
 case "$ID" in
   C01) TARGET=c01_read; MAXLEN=262145; TMO=25 ;;
+  C08) TARGET=c08_filters; MAXLEN=65544; TMO=20 ;;
   C21) TARGET=c21_content; MAXLEN=65536; TMO=20 ;;
   C26) TARGET=c26_cmap; MAXLEN=65536; TMO=20 ;;
   *) echo "fuzz.sh: no fuzz target for $ID" >&2; exit 2 ;;
@@ -51,6 +53,21 @@ b = open(src, 'rb').read()
 name = src.split('/')[-1]
 if pid == "C01":
     sub, case = "inputs", {"seed": {"Random": list(b[1:])}, "muts": [], "preset": (b[0] % 5) if b else 1}
+elif pid == "C08":
+    # the header layout of fuzz/fuzz_targets/c08_filters.rs
+    F = ["FlateDecode", "LZWDecode", "ASCIIHexDecode", "ASCII85Decode", "RunLengthDecode", "Crypt"]
+    P = [0, 1, 2, 10, 11, 12, 13, 14, 15]; C = [1, 2, 3, 4, 0, 255]; B = [8, 1, 2, 4, 16, 3]
+    L = [0, 1, 2, 3, 16, 255, 256, 4096, 65536, 1 << 20, 1 << 32, (1 << 64) - 1]
+    h, body = b[:8], b[8:]
+    flt = {"Arr": [{"Name": F[h[0] % 6]}, {"Name": F[(h[0] // 6) % 6]}]} if h[0] >= 128 else {"Name": F[h[0] % 6]}
+    parms = None
+    if P[h[1] % 9] != 0:
+        d = [["Predictor", {"Int": P[h[1] % 9]}], ["Colors", {"Int": C[h[2] % 6]}], ["BitsPerComponent", {"Int": B[h[3] % 6]}], ["Columns", {"Int": ((h[4] << 8) | h[5]) % 600}]]
+        if h[1] & 0x80:
+            d.append(["EarlyChange", {"Int": 0}])
+        parms = {"Dict": d}
+    limit = h[7] * 4 if h[6] >= 128 else L[h[6] % 12]
+    sub, case = "arbitrary", {"data": {"Bytes": list(body)}, "filter": flt, "parms": parms, "limit": limit}
 elif pid == "C21":
     sub, case = "bytes", {"class": "libfuzzer", "bytes": list(b)}
 else:  # C26: the harness carries CMap bytes as a Latin-1 string
